@@ -31,7 +31,7 @@ MANIFEST = {
     'technique': 'bounded-exhaustive enumeration of operation histories on three applications in one process (nested calls, '
                  'Request.copy, object construction inside handlers) replayed on a fresh import, plus exploration of all '
                  'two-thread schedules with bounded preemptions; oracle = handler observations and responses equal the lone run',
-    'text': 'All histories up to depth 2 (quick) / 3 (thorough) over 76 operations, and up to depth 3 / 4 over the 15 error / creation operations, on applications A, B and the default '
+    'text': 'All histories up to depth 2 (quick) / 3 (thorough) over 77 operations, and up to depth 3 / 4 over the 16 error / creation operations, on applications A, B and the default '
             'application, and all schedules with <=1 preemption (thorough: <=2 for the pairs A+B and A:chunked+B:chunked) of requests on two threads, '
             'are executed; each observation of app.request / app.response must show the application\'s own request. Every application registers a before_request hook for itself (the hook log must equal the served sequence); handlers re-read their body around nested requests with bodies; chunked forms and private status codes are part of the menu.',
     'note': 'Bounds: 3 applications, history depth and preemption bound as stated. Trusted: vf/sched.py, the fresh-import loader.',
@@ -96,6 +96,8 @@ def menu_errors():
     m.append(('create-config', None, None, None))
     # an application running in debug mode is created and answers a malformed and an oversized body itself
     m.append(('debug-app-errors', None, None, None))
+    # one more application is created FROM application A's configuration object and then re-configured in place
+    m.append(('create-from-A', None, None, None))
     return m
 
 
@@ -274,6 +276,13 @@ class World:
                         wsgi.environ('POST', '/b', body=b'0123456789abcdef'),
                         wsgi.environ('POST', '/j', body=b'{bad', ctype='application/json')):
                 wsgi.call(dbg, env)
+            return None
+        if kind == 'create-from-A':
+            other = self.om.Ombott(self.apps['A'].config)
+            other.config.max_body_size = None
+            other.config.debug = True
+            other.config.allow_x_script_name = True
+            other.request.copy().config.max_memfile_size = 1 << 20
             return None
         if kind == 'create-config':
             errs = sut.sub('request_pkg.errors')
@@ -454,7 +463,7 @@ def shards(tier, seed):
 
 
 def bounds(tier, seed):
-    return {'applications': APPS, 'menu': len(menu()), 'history_depth': '2 over the full menu, 3 over the 15-operation error/creation menu' if tier == 'quick' else '3 over the full menu, 4 over the error/creation menu',
+    return {'applications': APPS, 'menu': len(menu()), 'history_depth': '2 over the full menu, 3 over the 16-operation error/creation menu' if tier == 'quick' else '3 over the full menu, 4 over the error/creation menu',
             'thread_pairs': ['A+B', 'A+D', 'B+D', 'A+A', 'A:chunked+B:chunked', 'A:chunked+D'] + (['A:chunked+A:chunked', 'D:chunked+B:chunked', 'B:chunked+A'] if tier == 'thorough' else []), 'preemption_bound': 1 if tier == 'quick' else '2 for A+B (A first) and A:chunked+B:chunked (B first); 1 for the other pairs and orders'}
 
 
